@@ -224,6 +224,12 @@ def h_seq(ctx, types, twin=None):
     for t, v in zip(ts, vals):
         t.store(b, v)                      # a value that fits its type must never be rejected
     c = b.end_cell()
+    # the builder goes on being used after the cell was taken from it (one more reference, one more bit): what is loaded back
+    # from the cell is still exactly what had been stored
+    if len(b.refs) < 4:
+        b.store_ref(Builder().store_uint(1, 1).end_cell())
+    if len(b.bits) < 1000:
+        b.store_uint(1, 1)
     want = cat_bits(*[t.enc(v) for t, v in zip(ts, vals)])
     if twin == 'plus1':      # vacuity twin: a deliberately wrong oracle must be refuted
         want = cat_bits(ts[0].enc(vals[0] ^ 1), *[t.enc(v) for t, v in zip(ts[1:], vals[1:])])
